@@ -73,8 +73,28 @@ def ambient_sources(fx, seen):
                     and n.get("ty") in C.INT_TYPES:
                 hits.append((p, n, "pointer-to-integer cast %s -> %s" % (n.get("from"), n.get("ty"))))
             elif k in ("Static", "ThreadLocal"):
+                if k == "Static" and plain_constant_static(fx, n["path"]):
+                    continue        # an immutable static without interior mutability, initialised by a constant expression: a constant
                 hits.append((p, n, "reads static %s" % n["path"]))
     return hits
+
+
+def plain_constant_static(fx, path):
+    """`static ZEROS: [u8; 8] = [0; 8];`: not `mut`, not thread-local, no interior mutability (Freeze), and the initialiser
+    calls nothing and reads no other static (literals, constants, array/struct/tuple expressions only)"""
+    for c_, it in fx.items.items():
+        for s_ in it.get("statics", []):
+            if s_["path"] == path:
+                if s_.get("mut") or s_.get("thread_local") or not s_.get("freeze") or s_.get("interior"):
+                    return False
+                sb = fx.bodies.get(path)
+                if sb is None:
+                    return False
+                for n_ in F.walk(sb["body"]):
+                    if n_.get("k") in ("Call", "Static", "ThreadLocal", "Closure", "Upvar", "Loop", "Match", "If", "Zst", "Index", "Deref"):
+                        return False
+                return True
+    return False
 
 
 INTERIOR_WORDS = re.compile(r"\b(Mutex|RwLock|RefCell|Cell|UnsafeCell|Atomic\w*|Rc|Condvar|Barrier|mpsc|Sender|Receiver)\b")
